@@ -236,6 +236,17 @@ class VTuple(V):
         return f"VTuple{self.items}"
 
 
+class Guarded(V):
+    """list element / iteration item that is present only when cond holds"""
+    __slots__ = ("cond", "val")
+
+    def __init__(self, cond, val):
+        self.cond, self.val = cond, val
+
+    def __repr__(self):
+        return f"Guarded({self.cond}, {self.val})"
+
+
 class VRef(V):
     """reference to a heap object (list, dict, set, instance)"""
     __slots__ = ("ref",)
